@@ -587,6 +587,9 @@ func (x *txnCtx) writesTxn(off uint32, op *Op) {
 		if kind, ok = x.avoidWrite(off, col, kind); !ok {
 			continue
 		}
+		if col.Kind == KEnum && (mv.S == enumCollision[0] || mv.S == enumCollision[1]) {
+			w.noteTrigger("enum-hash-collision")
+		}
 		if wr.Via == 2 && kind == mPut {
 			x.setAnyTxn(col, mv)
 		} else {
